@@ -1523,7 +1523,7 @@ Qed.
    what it returns on the original message (view W T tv, by C08_tolerant: the message is in the C08 domain of W), up to
    dfill, and stops at the end of the message. *)
 Theorem keep_retain_full : forall S W p k T tv g gw,
-  wf_schema S = true -> wf_schema W = true -> sub_schema S W = true -> no_keep_arg S = true -> p <> PCompact ->
+  wf_schema S = true -> wf_schema W = true -> sub_schema S W = true -> p <> PCompact ->
   wt tv = true -> ttype_of tv = ttype_of_ty S T ->
   evo_dom S T tv = true -> no_retyped_variant S T tv = true ->
   evo_dom W T tv = true -> no_retyped_variant W T tv = true ->
@@ -1535,7 +1535,7 @@ Theorem keep_retain_full : forall S W p k T tv g gw,
     forall fuel r rcx, (vsize (reenc S T tv) <= fuel)%nat -> idle rcx ->
       gen_decode W p fuel T (mkS (flat b ++ r) rcx) = Ok (gw', mkS r rcx).
 Proof.
-  intros S W p k T tv g gw HwfS HwfW Hsub Hnka Hbin Hwt Hty Hd Hn HdW0 HnW0 c Hc Hk Hee Hw.
+  intros S W p k T tv g gw HwfS HwfW Hsub Hbin Hwt Hty Hd Hn HdW0 HnW0 c Hc Hk Hee Hw.
   destruct (reenc_dom S W p k c T tv g HwfS HwfW Hsub Hn Hk HdW0 HnW0) as [HdW HnW].
   pose proof (KeepWtP.reenc_wt S tv T HwfS Hwt Hty Hd Hn Hee) as Hwr.
   destruct (keep_retain S p k c T tv g HwfS Hbin Hc Hn Hk Hwr) as (b & He & Hr).
